@@ -73,7 +73,7 @@ func (l *LaxLoop) NumChains() int                 { return minInt(1, l.numVertic
 func (l *LaxLoop) Chain(i int) Chain              { return Chain{0, l.numVertices} }
 func (l *LaxLoop) ChainEdge(i, j int) Edge {
 	var k int
-	if j+1 == l.numVertices {
+	if j+1 != l.numVertices {
 		k = j + 1
 	}
 	return Edge{l.vertices[j], l.vertices[k]}
